@@ -955,6 +955,121 @@ def check_C10(chk):
 
 
 # ------------------------------------------------------------------ C05 (shm driver)
+def gen_shm_script(rng, n):
+    ops, live, nslots = [], [], 0
+    lens = {}
+    for _ in range(n):
+        r = rng.random()
+        if not live or (r < 0.22 and nslots < 9):
+            L = rng.choice([0, 1, 100, 4096, 4097, 5000, 5000, 100])
+            ops.append(("b", L))
+            lens[nslots] = L
+            live.append(nslots)
+            nslots += 1
+        elif r < 0.38 and nslots < 12:
+            i = rng.choice(live)
+            ops.append(("k", i))
+            lens[nslots] = lens[i]
+            live.append(nslots)
+            nslots += 1
+        elif r < 0.58 and len(live) >= 2:
+            d, s_ = rng.sample(live, 2)
+            # mostly sources of the destination's length (the case a 'reuse the destination' shortcut would pick)
+            same = [x for x in live if x != d and lens[x] == lens[d]]
+            if same and rng.random() < 0.7:
+                s_ = rng.choice(same)
+            ops.append(("f", d, s_))
+            lens[d] = lens[s_]
+        elif r < 0.68 and nslots < 12:
+            i = rng.choice(live)
+            ops.append(("x", i))
+            lens[nslots] = lens[i]
+            live.append(nslots)
+            nslots += 1
+        elif r < 0.78 and len(live) > 1:
+            i = rng.choice(live)
+            ops.append(("d", i))
+            live.remove(i)
+        else:
+            ops.append(("r", rng.choice(live)))
+    # finally every live slot is read, then dropped
+    for i in list(live):
+        ops.append(("r", i))
+    for i in list(live):
+        ops.append(("d", i))
+    return ops
+
+
+def shm_script_stage(chk, bins, rng, nscripts, fails):
+    scripts = [gen_shm_script(rng, rng.randint(6, 22)) for _ in range(nscripts)]
+
+    def txt(o):
+        return "%s%d:%d" % (o[0], o[1], o[2]) if o[0] == "f" else "%s%d" % (o[0], o[1])
+    lines = ["op=script id=%d ops=%s" % (i + 1, ",".join(txt(o) for o in sc)) for i, sc in enumerate(scripts)]
+    recs, trace, rc, err = C.run_harness(bins["default"], "shm", lines, timeout=300)
+    by = {r["id"]: r for r in recs if r.get("kind") == "shmscript"}
+    cons = {"b": "SCreate", "k": "SClone", "d": "SDrop", "r": "SRead", "x": "SXfer"}
+    todo, meta = [], []
+    for i, sc in enumerate(scripts):
+        r = by.get(i + 1)
+        if r is None or len(r["steps"]) != len(sc):
+            fails.append(("default", None, "region script %s did not complete: %s" % (lines[i], err[-200:])))
+            chk.failing_input("a script of region operations did not complete (the process died?): %s" % err[-200:], {"script": lines[i]}, key="shmscript:%d" % i)
+            continue
+        obs = []
+        # oracle, independent of the model: a read returns the slot's length and its creator's fill byte
+        val, nsl, why = {}, 0, None
+        for n, (o, st) in enumerate(zip(sc, r["steps"])):
+            if o[0] == "b":
+                val[nsl] = (o[1], nsl + 1)
+                nsl += 1
+            elif o[0] in ("k", "x"):
+                val[nsl] = val[o[1]]
+                nsl += 1
+            elif o[0] == "f":
+                val[o[1]] = val[o[2]]
+            elif o[0] == "r" and why is None:
+                L, b = val[o[1]]
+                want = [L, b if L else -2]
+                if st["read"] != want:
+                    hist = ",".join(txt(x) for x in sc[:n + 1])
+                    why = ("after the operations %s (b<len>: from_byte(slot+1, len) into a new slot, k<i>: clone, f<d>:<s>: slot d .clone_from(slot s), x<i>: sent through a channel, "
+                           "d<i>: drop, r<i>: read) slot %d reads (length, common byte) = %s instead of %s" % (hist, o[1], st["read"], want))
+        if why:
+            fails.append(("default", None, why))
+            chk.failing_input("region handles: " + why, {"script": lines[i], "observed_steps": r["steps"]}, key="shmscript:%s" % lines[i][:200])
+        for n, (o, st) in enumerate(zip(sc, r["steps"])):
+            seg = C.ops_between(trace, "sop %d.%d" % (i + 1, n), "endsop %d.%d" % (i + 1, n)) or []
+            calls = []
+            for q in seg:
+                if q["call"] == "ftruncate":
+                    calls.append("CFtruncate %d" % q["len"])
+                elif q["call"] == "mmap" and q.get("res") == 0:
+                    calls.append("CMmap %d" % q["len"])
+                elif q["call"] == "dup":
+                    calls.append("CDup")
+                elif q["call"] == "close" and q.get("kind") == 2:
+                    calls.append("CClose")
+            rd = "Some (%d, %d)" % (st["read"][0], st["read"][1]) if st["read"] else "None"
+            obs.append("([%s], %d, %d, %s)" % ("; ".join(calls), st["maps"], st["fds"], rd))
+        ops = "; ".join(("SCloneFrom %d %d" % (o[1], o[2])) if o[0] == "f" else ("%s %d" % (cons[o[0]], o[1])) for o in sc)
+        todo.append((len(todo), "check_shm [%s] [%s]" % (ops, "; ".join(obs))))
+        meta.append((lines[i], r))
+    header = "From Coq Require Import ZArith List Bool.\nFrom IPC Require Import Shm ShmCheck.\nImport ListNotations.\nOpen Scope Z_scope.\n"
+    res, errors = C.coq_eval_sharded(header, todo, lambda p: "Eval vm_compute in (%d, %s)." % p, "c05script", shard=4)
+    bad = [(t, meta[k]) for k, t in todo if res.get(k) != "true"]
+    chk.coverage["region_scripts_replayed_on_model"] = len(todo) - len(bad)
+    chk.coverage["traces_validated_against_impl"] = chk.coverage.get("traces_validated_against_impl", 0) + len(todo)
+    if errors:
+        chk.unproved("model evaluation (coqc on region scripts) failed", errors[0][-1500:])
+    if bad:
+        t, (line, r) = bad[0]
+        # an oracle of its own for the commonest reason: a read that does not return the creator's fill byte at the slot's length
+        chk.unproved("correspondence ShmCheck.check_shm: calls / live mappings and descriptors / read results of a script of region operations differ from the Shm model on %d of %d scripts"
+                     % (len(bad), len(todo)), {"script": line, "observed_steps": r["steps"], "model_term": t[:3000]})
+    return len(bad)
+
+
 def check_C05(chk):
     thorough = chk.tier == "thorough"
     rng = random.Random(chk.seed)
@@ -1034,12 +1149,17 @@ def check_C05(chk):
         chk.sample(c)
     chk.assumptions += ["ftruncate(n) gives an object whose fstat size is exactly n and whose first n bytes are what was written through any mapping (kernel / tmpfs semantics)",
                         "memfd_create is issued as a raw system call and is invisible to the shim (that build is observed through /proc/self/fd, /proc/self/maps and mmap lengths)"]
+    # scripts of region operations (create / clone / clone_from / transfer / drop / read over numbered slots) evaluated on the Shm model
+    # by coqc: per step the library's calls (ftruncate, mmap, dup, close - from the trace), the live mappings and descriptors of the
+    # process, and what every read returns
+    sbad_n = shm_script_stage(chk, bins, rng, 60 if thorough else 16, fails)
     # regions as first-class values inside whole-API programs (cloned, embedded next to endpoints, travelling through sets and servers,
     # carried by messages that die or cannot be decoded, read at every stage), against the Api model on the three builds
     from . import props_prog as PP
     af, ab = PP.api_stage(chk, "C05", bins, ["default", "memfd", "inprocess"], 400 if thorough else 45, 60, seed_off=41)
     fails = fails + [None] * af
-    finish_proof(chk, proof_ok, fails, [None] * ab)
+    cov["correspondence_mismatches"] = sbad_n + ab
+    finish_proof(chk, proof_ok, fails, [None] * (ab + sbad_n))
 
 
 # ------------------------------------------------------------------ C08 (server driver)
